@@ -277,6 +277,71 @@ theorem handleFrame_shape (c : Cfg) (st : LinkSt) (frame : Bytes) :
               st frag
             exact ⟨st', d, h, Or.inl hs⟩
 
+
+/-- (F-09c) Whenever `handleFrame` dispatches something, the bytes handed to the forwarding threads (`pkt.Raw`: the
+    bare frame, the Fragment, or the reassembled message) are exactly ONE TLV: nothing trails the packet. -/
+theorem cont_single (c : Cfg) (tok : Option Bytes) (st : LinkSt) (wire : Bytes) (st' : LinkSt) (d : Deliver)
+    (h : (match c.dec wire with
+          | none => some (st, Deliver.nothing)
+          | some l3 => if singleTlv wire then dispatchL3 c st l3 tok else some (st, Deliver.nothing)) = some (st', d))
+    (hd : d ≠ .nothing) : singleTlv wire = true := by
+  cases hdec : c.dec wire with
+  | none => rw [hdec] at h; simp only [Option.some.injEq, Prod.mk.injEq] at h; exact absurd h.2.symm hd
+  | some l3 =>
+    rw [hdec] at h
+    simp only at h
+    by_cases hs : singleTlv wire = true
+    · exact hs
+    · rw [if_neg hs] at h
+      simp only [Option.some.injEq, Prod.mk.injEq] at h
+      exact absurd h.2.symm hd
+
+theorem handleFrame_dispatches_single_tlv (c : Cfg) (st : LinkSt) (frame : Bytes) (st' : LinkSt) (d : Deliver)
+    (h : handleFrame c st frame = some (st', d)) (hd : d ≠ .nothing) :
+    singleTlv frame = true ∨ singleTlv (fragOf c frame) = true ∨
+    ∃ base idx cnt st'' whole, reassemble st base idx cnt (fragOf c frame) = some (st'', some whole) ∧ singleTlv whole = true := by
+  unfold handleFrame at h
+  unfold fragOf
+  cases hdec : c.dec frame with
+  | none => rw [hdec] at h; simp only [Option.some.injEq, Prod.mk.injEq] at h; exact absurd h.2.symm hd
+  | some l2 =>
+    rw [hdec] at h
+    simp only at h ⊢
+    cases hlp : l2.lp with
+    | none =>
+      rw [hlp] at h
+      simp only at h
+      by_cases hs : singleTlv frame = true
+      · exact Or.inl hs
+      · rw [if_neg hs] at h
+        simp only [Option.some.injEq, Prod.mk.injEq] at h
+        exact absurd h.2.symm hd
+    | some lp =>
+      rw [hlp] at h
+      simp only at h ⊢
+      cases hfr : lp.fragment with
+      | none => rw [hfr] at h; simp only [Option.some.injEq, Prod.mk.injEq] at h; exact absurd h.2.symm hd
+      | some frag =>
+        rw [hfr] at h
+        simp only [Option.getD_some] at h ⊢
+        split at h
+        · split at h
+          · exact Or.inr (Or.inl (cont_single c _ st frag st' d h hd))
+          · generalize hb : ((lp.seq.getD 0) + 2 ^ 64 - lp.idx.getD 0 % 2 ^ 64) % 2 ^ 64 = base at h
+            cases hr : reassemble st base (lp.idx.getD 0) (lp.cnt.getD 1) frag with
+            | none => rw [hr] at h; cases h
+            | some r =>
+              obtain ⟨st'', w⟩ := r
+              rw [hr] at h
+              cases w with
+              | none => simp only [Option.some.injEq, Prod.mk.injEq] at h; exact absurd h.2.symm hd
+              | some whole =>
+                simp only at h
+                exact Or.inr (Or.inr ⟨base, _, _, st'', whole, hr, cont_single c _ st'' whole st' d h hd⟩)
+        · split at h
+          · simp only [Option.some.injEq, Prod.mk.injEq] at h; exact absurd h.2.symm hd
+          · exact Or.inr (Or.inl (cont_single c _ st frag st' d h hd))
+
 /-! ## readTlvStream -/
 
 theorem tlLen_pos (x : Nat) : 1 ≤ tlLen x := by
